@@ -1,8 +1,8 @@
 (* C01 end to end over the definitions regenerated from the source (Gen/Src.v). Statements only. *)
 From MV Require Import Base RotLemmas Record Regex Shape Typing Assembly AssemblyLemmas Pipeline
-     PipelineLemmas ProductLemmas StrandLemmas Canonical EndToEnd Py PyObj SrcEquivAssembly SrcGlue SrcEndToEnd.
+     PipelineLemmas ProductLemmas StrandLemmas Canonical EndToEnd Py PyObj SrcEquivAssembly SrcGlue SrcEndToEnd PyHeap SrcEquivCite SrcEquivAsmHeap SrcEntryEndToEnd.
 From MV.Gen Require Import Src.
-From Coq Require Import Permutation.
+From Coq Require Import Permutation String.
 Local Open Scope Z_scope.
 
 (* For ANY enzyme e (any site word, cut offset, overhang length), a vector plasmid and ANY number
@@ -31,3 +31,36 @@ Theorem C01_src_end_to_end : forall e v kv (l : list (mplasmid * Z)) (cs : list 
     /\ unused_of ws = [].
 Proof. exact src_end_to_end. Qed.
 Print Assumptions C01_src_end_to_end.
+
+(* THE ENTRY POINT. The same for vector.assemble(module, *modules, id=, name=) itself AS REGENERATED
+   — AbstractVector.assemble, AssemblyManager.assemble with its citation bookkeeping under
+   try/finally, _annotate_assembly, _ref_citations — on records of ANY content (features,
+   qualifiers, annotations, names; citations that dereference, Props/C10_src.v) carrying the
+   plasmids of the formal definition: the product's sequence is the documented formula, no module
+   is unused, and it carries the requested id and name, the circular topology and the comment
+   naming the vector and every module.  (Props/C07_src.v runs an instance.) *)
+Theorem C01_src_entry_point : forall e v kv (l : list (mplasmid * Z)) (cs : list smod),
+  (0 < List.length (esite e))%nat -> vplasmid_ok e v -> Forall (mplasmid_ok e) (map fst l) ->
+  let ms0 := number 0 (map fst l) in
+  Permutation ms0 cs ->
+  path (okey (qOdn v)) (map keys_of cs) (okey (qOup v)) ->
+  okey (qOup v) <> okey (qOdn v) ->
+  Forall (fun m => okey (so5 m) <> okey (qOup v)) cs ->
+  clash_free rc_codes (map tmod_of ms0) ->
+  forall vector m ms kw hd,
+  good_ent vector -> Forall good_ent (m :: ms) ->
+  ent_cls vector = generic_cls RVector e -> ent_seq_w vector = rotr kv (vword v) ->
+  map raw_of (m :: ms) = map (marg e) l ->
+  map ent_id (m :: ms) = seq 0 (List.length (m :: ms)) -> ent_id vector = List.length (m :: ms) ->
+  deref_elems ((m :: ms) ++ [vector]) [] (heap_of (vector :: m :: ms)) = Ok hd ->
+  exists prod ws,
+    fst (run_assemble (S (S (List.length (m :: ms)))) vector (m :: ms) kw) = Ok (prod, ws)
+    /\ pr_seq prod = List.concat (map frag cs) ++ (qOup v ++ vbackbone v)
+    /\ unused_of ws = []
+    /\ pr_id prod = kw_id kw /\ pr_name prod = kw_name kw
+    /\ an_topology (pr_annotations prod) = Some "circular"%string
+    /\ other_get (an_other (pr_annotations prod)) "comment"
+       = Some (AComment [LGenerated; LVector (pr_id (ent_record vector));
+                         LModules (map (fun x => pr_id (ent_record x)) (m :: ms))]).
+Proof. exact src_entry_end_to_end. Qed.
+Print Assumptions C01_src_entry_point.
